@@ -874,21 +874,10 @@ def rtxt(func, expr):
 
 
 def _outcome_atoms(nzc, expr, want):
-    """Atoms established when ``expr`` evaluates truthy (want) / falsy."""
-    form = nzc.formula(expr)
-
-    def neg(form_):
-        if form_[0] == 'atom':
-            return ('atom', N.negate(form_[1]))
-        kind = 'or' if form_[0] == 'and' else 'and'
-        return (kind, [neg(p) for p in form_[1]])
-    if not want:
-        form = neg(form)
-    if form[0] == 'atom':
-        return [form[1]]
-    if form[0] == 'and':
-        return [p[1] for p in form[1] if p[0] == 'atom']
-    return []
+    """Atoms established when ``expr`` evaluates truthy (want) / falsy: the
+    atoms of a conjunction, an 'anyof' atom for a disjunction."""
+    # pylint: disable=protected-access
+    return nzc._flatten(nzc._formula(expr, bool(want)))
 
 
 def edge_establishes(ctx, func, nz, edge, atom_pred, depth=0):
@@ -898,7 +887,7 @@ def edge_establishes(ctx, func, nz, edge, atom_pred, depth=0):
     for atom in nz.facts_of_edge(edge):
         if atom.key[0] == 'anyof':
             alts = N.alternatives(atom)
-            if alts and all(atom_pred(a) for a in alts):
+            if alts and all(any(atom_pred(a) for a in alt) for alt in alts):
                 return True
         elif atom_pred(atom):
             return True
@@ -907,6 +896,11 @@ def edge_establishes(ctx, func, nz, edge, atom_pred, depth=0):
             depth >= 2 or func is None:
         return False
     expr = node.ast
+    if isinstance(expr, ast.Name):
+        # the outcome of a helper kept in a local: ok = self.check(x)
+        held = (nz.env_of(node) or {}).get(expr.id)
+        if isinstance(held, ast.Call):
+            expr = held
     if not isinstance(expr, ast.Call):
         return False
     callee = resolve_call(ctx, func, expr)
@@ -949,7 +943,10 @@ def edge_establishes(ctx, func, nz, edge, atom_pred, depth=0):
         else:
             found = True
             atoms = _outcome_atoms(nzc, val, want)
-            if any(atom_pred(a) for a in atoms):
+            if any(atom_pred(a) if a.key[0] != 'anyof' else (
+                    N.alternatives(a) and all(
+                        any(atom_pred(x) for x in alt)
+                        for alt in N.alternatives(a))) for a in atoms):
                 continue
             if isinstance(val, ast.Call):
                 # return other_helper(...)
